@@ -2,6 +2,7 @@ package compress
 
 import (
 	"io"
+	"sync"
 
 	"github.com/klauspost/compress/zstd"
 )
@@ -10,6 +11,34 @@ type ZstdReader struct {
 	Body io.ReadCloser // underlying Response.Body
 	zr   *zstd.Decoder // lazily-initialized zstd reader
 	zerr error         // sticky error
+	src  *failureRecorder
+}
+
+// failureRecorder remembers the first error other than io.EOF returned by
+// the underlying body. The zstd decoder reads it on its own goroutine and
+// reports a source that fails at a frame boundary as a clean end of stream.
+type failureRecorder struct {
+	r   io.Reader
+	mu  sync.Mutex
+	err error
+}
+
+func (f *failureRecorder) Read(p []byte) (int, error) {
+	n, err := f.r.Read(p)
+	if err != nil && err != io.EOF {
+		f.mu.Lock()
+		if f.err == nil {
+			f.err = err
+		}
+		f.mu.Unlock()
+	}
+	return n, err
+}
+
+func (f *failureRecorder) failure() error {
+	f.mu.Lock()
+	defer f.mu.Unlock()
+	return f.err
 }
 
 func NewZstdReader(body io.ReadCloser) *ZstdReader {
@@ -21,13 +50,23 @@ func (zr *ZstdReader) Read(p []byte) (n int, err error) {
 		return 0, zr.zerr
 	}
 	if zr.zr == nil {
-		zr.zr, err = zstd.NewReader(zr.Body)
+		zr.src = &failureRecorder{r: zr.Body}
+		zr.zr, err = zstd.NewReader(zr.src)
 		if err != nil {
 			zr.zerr = err
 			return 0, err
 		}
 	}
-	return zr.zr.Read(p)
+	n, err = zr.zr.Read(p)
+	if err == io.EOF {
+		// A body that broke off is not the end of the content, even if it
+		// broke off between two zstd frames.
+		if ferr := zr.src.failure(); ferr != nil {
+			err = ferr
+			zr.zerr = err
+		}
+	}
+	return n, err
 }
 
 func (zr *ZstdReader) Close() error {
